@@ -382,6 +382,21 @@ func frameworkStorm(ctx *core.Ctx, ci int, provName string, inflight int, entry 
 		w.Write([]byte(fmt.Sprintf("recovered:%v", v)))
 	})
 	inHandler := &spinBarrier{n: int32(inflight)}
+	if mode == "filter-reads-body" {
+		// a container filter (audit, validation) reads the gzip-encoded entity itself, also for requests that never reach a
+		// route (404, 405) and for the plain handler behind HandleWithFilter
+		c.Filter(func(req *restful.Request, resp *restful.Response, chain *restful.FilterChain) {
+			if req.Request.Header.Get("Content-Encoding") == "gzip" {
+				var d echoDoc
+				req.ReadEntity(&d)
+			}
+			chain.ProcessFilter(req, resp)
+		})
+		c.HandleWithFilter("/plain13/", http.HandlerFunc(func(w http.ResponseWriter, r *http.Request) {
+			w.Write([]byte("plain13"))
+			atomic.StoreInt32(r.Context().Value(hdKey{}).(*int32), 1)
+		}))
+	}
 	ws := new(restful.WebService).Path("/s")
 	ws.Route(ws.GET("/get").To(func(req *restful.Request, resp *restful.Response) {
 		id := req.Request.Header.Get("X-Id")
@@ -435,11 +450,12 @@ func frameworkStorm(ctx *core.Ctx, ci int, provName string, inflight int, entry 
 		closeBar = nil // the release barrier is only safe when every request reaches Close and spinners <= cores-2
 	}
 	type result struct {
-		rec    *stormRec
-		escape interface{}
-		id     int
-		post   bool
-		broken bool
+		rec      *stormRec
+		escape   interface{}
+		id       int
+		post     bool
+		broken   bool
+		unrouted bool
 	}
 	results := make([]*result, inflight)
 	var wg sync.WaitGroup
@@ -460,9 +476,14 @@ func frameworkStorm(ctx *core.Ctx, ci int, provName string, inflight int, entry 
 				req.Path = "/s/optout"
 			}
 			var body []byte
-			if mode == "request-bodies" || mode == "broken-bodies" {
+			if mode == "request-bodies" || mode == "broken-bodies" || mode == "filter-reads-body" {
 				res.post = true
 				req.Method, req.Path = "POST", "/s/echo"
+				if mode == "filter-reads-body" {
+					// nobody waits in a handler for these: 404 in the service, 404 outside, 405, and the plain handler
+					req.Path = []string{"/s/missing", "/nowhere", "/s/get", "/plain13/x"}[i%4]
+					res.unrouted = true
+				}
 				raw, _ := json.Marshal(echoDoc{ID: id, Pad: strings.Repeat("p", 200+i)})
 				var zb bytes.Buffer
 				zw := gzip.NewWriter(&zb)
@@ -523,8 +544,8 @@ func frameworkStorm(ctx *core.Ctx, ci int, provName string, inflight int, entry 
 			ctx.Violation(ci, "c13:panic:"+where, fmt.Sprintf("request %d panicked: %v", i, res.escape), doc)
 			continue
 		}
-		if res.rec.failAfter >= 0 {
-			continue // the client lost the connection; only the ledger is judged
+		if res.rec.failAfter >= 0 || res.unrouted {
+			continue // the client lost the connection / a routing error or the plain handler answered: only the ledger is judged
 		}
 		ce := res.rec.Hdr().Get("Content-Encoding")
 		body := res.rec.Body.Bytes()
@@ -742,7 +763,7 @@ func secondClose(ctx *core.Ctx, ci int, provName, coding string) {
 func c13(ctx *core.Ctx) {
 	quietLogs()
 	atomic.StoreInt32(&c13Abort, 0)
-	ctx.Rule("providers {sync.Pool, bounded cache with (writers, readers) capacity (0,0)/(1,1)/(2,1)/(8,3), custom mutex free-list} behind an instrumenting provider (ledger + trip-wire + history). (A) direct storms: g in {2,4,8} goroutines acquire, use and close a writer, then release together through a spin barrier. (B) storms through Dispatch/ServeHTTP with in-flight in {1,2,capacity,capacity+1,16,64,100} requests all held inside the handler at once, modes {normal (release barrier inside the compressor flush), failing underlying writer, panicking handler with recovery, gzip request bodies via ReadEntity read in 7-byte slices, broken request bodies, handler hijacking the connection, handlers that write no body (nothing, bare 204, zero-length Write), a route that opted out of content encoding}; churn: goroutines acquire/use/release (directly and through Dispatch/ServeHTTP) back to back without barriers, so that acquires overlap releases. (C) second Close. Oracle: no object handed out while held, each acquired object released exactly once, no write through a released writer, every response/request body decodes to its own payload, nobody parked forever in Release/Close (goroutine state), per-object acquire/release history linearizable against a mutex (porcupine). Race detector on. Non-trivial = a storm with >= 2 holders; distinct by (kind, provider, holders, entry, mode, coding).")
+	ctx.Rule("providers {sync.Pool, bounded cache with (writers, readers) capacity (0,0)/(1,1)/(2,1)/(8,3), custom mutex free-list} behind an instrumenting provider (ledger + trip-wire + history). (A) direct storms: g in {2,4,8} goroutines acquire, use and close a writer, then release together through a spin barrier. (B) storms through Dispatch/ServeHTTP with in-flight in {1,2,capacity,capacity+1,16,64,100} requests all held inside the handler at once, modes {normal (release barrier inside the compressor flush), failing underlying writer, panicking handler with recovery, gzip request bodies via ReadEntity read in 7-byte slices, broken request bodies, handler hijacking the connection, handlers that write no body (nothing, bare 204, zero-length Write), a route that opted out of content encoding, a container filter reading gzip entities of requests that end in 404/405 or at a HandleWithFilter handler}; churn: goroutines acquire/use/release (directly and through Dispatch/ServeHTTP) back to back without barriers, so that acquires overlap releases. (C) second Close. Oracle: no object handed out while held, each acquired object released exactly once, no write through a released writer, every response/request body decodes to its own payload, nobody parked forever in Release/Close (goroutine state), per-object acquire/release history linearizable against a mutex (porcupine). Race detector on. Non-trivial = a storm with >= 2 holders; distinct by (kind, provider, holders, entry, mode, coding).")
 	ctx.Assume("the ledger adds after the inner acquire and removes before the inner release: it cannot false-alarm on provider-internal ordering")
 	defer func() {
 		// after an abort goroutines of the unfinished storm may still be serving: the package-wide provider is left alone
@@ -790,7 +811,7 @@ func c13(ctx *core.Ctx) {
 			}
 		}
 	}
-	modes := []string{"normal", "failing-writer", "panic", "request-bodies", "broken-bodies", "hijack", "bodiless", "route-opt-out"}
+	modes := []string{"normal", "failing-writer", "panic", "request-bodies", "broken-bodies", "hijack", "bodiless", "route-opt-out", "filter-reads-body"}
 	reps := ctx.N(1, 12)
 	for rep := 0; rep < reps; rep++ {
 		for _, prov := range c13Providers {
